@@ -2,6 +2,7 @@
 #![allow(deprecated)]
 #![allow(clippy::all)]
 
+pub mod envmod;
 pub mod fsnap;
 pub mod layers;
 pub mod util;
